@@ -15,6 +15,7 @@ func init() {
 	vrt.Register("C01_mixed", Mixed)
 	vrt.Register("C01_html_typed_helpers", HTMLTypedHelpers)
 	vrt.Register("C01_named_string_types", NamedStringTypes)
+	vrt.Register("C01_stored_in_html_typed", StoredInHTMLTyped)
 }
 
 type holder struct {
@@ -407,4 +408,49 @@ func NamedStringTypes() {
 	r := got[len(pre) : len(got)-len(post)]
 	vrt.Assert(safe(r), "a value of a named string type is never emitted with raw < > & ' \"")
 	vrt.Cover("done")
+}
+
+type htmlHolder struct {
+	H  template.HTML
+	Hs []template.HTML
+}
+
+// a plain string stored by the template into a container whose element type is
+// template.HTML (index assignment, variable assignment over an HTML value) does
+// not become trusted: the store is refused, or what is printed is escaped. Every
+// program prints only the slot it stored into.
+func StoredInHTMLTyped() {
+	p := payload()
+	ctx := baseCtx(p)
+	ctx.Set("hm", map[string]template.HTML{"k": "<i>"})
+	ctx.Set("hs", []template.HTML{"<i>"})
+	ctx.Set("ha", &[1]template.HTML{"<i>"})
+	ctx.Set("him", map[string]interface{}{"k": template.HTML("<i>")})
+	ctx.Set("hh", &htmlHolder{H: "<i>", Hs: []template.HTML{"<i>"}})
+	ctx.Set("hv", template.HTML("<i>"))
+	progs := []string{
+		"<% hm[\"k\"] = x %>[<%= hm[\"k\"] %>]",
+		"<% hm[\"n\"] = x %>[<%= hm[\"n\"] %>]",
+		"<% hm[\"k\"] = \"\" + x %>[<%= for (k, v) in hm { %><%= v %><% } %>]",
+		"<% hs[0] = x %>[<%= hs[0] %>]",
+		"<% hs[0] = st.Field %>[<%= for (v) in hs { %><%= v %><% } %>]",
+		"<% ha[0] = x %>[<%= ha[0] %>]",
+		"<% him[\"k\"] = x %>[<%= him[\"k\"] %>]",
+		"<% hh.Hs[0] = x %>[<%= hh.Hs[0] %>]",
+		"<% hv = x %>[<%= hv %>]",
+		"<% let hv = x %>[<%= hv %>]",
+	}
+	in := progs[vrt.Choice(len(progs))]
+	vrt.Note("input", in)
+	got, err := plush.Render(in, ctx)
+	vrt.Note("got", got)
+	if err != nil {
+		vrt.Cover("refused")
+		return
+	}
+	vrt.Assert(len(got) >= 2, "the output contains the literal frame")
+	r := got[1 : len(got)-1]
+	vrt.Assert(safe(r), "a string stored into an HTML-typed container is not emitted verbatim")
+	vrt.Assert(decodesTo(r, p), "the stored string is printed, escaped")
+	vrt.Cover("accepted")
 }
